@@ -3,9 +3,96 @@ import ShelxModel.C07
 open Lean Shelx.J
 
 namespace Shelx.Drv.C07
+open Shelx.C07
+
+/-- text of a line printed by the skeleton printer (no input line contains a NUL) -/
+def printedMark : String := "\x00"
+
+def P : Printer String :=
+  let sk := skeletonPrinter kwString
+  { card := fun l => (sk.card l).map fun x => { x with text := printedMark },
+    table := fun t vs => (sk.table t vs).map fun g => g.map fun x => { x with text := printedMark } }
+
+def clsName : Cls → String
+  | .raw => "raw"
+  | .obj => "obj"
+  | .atom => "atom"
+  | .tab .sfac => "sfac"
+  | .tab .fvar => "fvar"
+
+/-- one physical line of the written file as the model knows it -/
+def outLine (l : PLine String) : Json :=
+  if l.text = printedMark then
+    Json.mkObj [("kw", Json.str l.key.1), ("tok", Json.str l.key.2), ("cls", Json.str (clsName l.cls)), ("vals", ofStrs l.vals)]
+  else Json.mkObj [("raw", Json.str l.text)]
+
+def optStr : Option String → Json
+  | none => Json.null
+  | some s => Json.str s
+
+def keysJson (ks : List (String × Option String)) : Json :=
+  Json.arr (ks.map fun k => Json.arr #[Json.str k.1, optStr k.2]).toArray
+
+def keyOfJson (j : Json) : Except String (String × Option String) := do
+  let a ← arr j
+  match a with
+  | [k, .null] => return (← str k, none)
+  | [k, t] => return (← str k, some (← str t))
+  | _ => err "key: expected [kw, tok]"
+
+/-- what was parsed in one read: atoms, keywords of the instruction objects, and the written file -/
+def readStats (items : List (Item String)) : Nat × List String :=
+  (items.foldl (fun n it => match it with | .card l => if l.cls = .atom then n + 1 else n | _ => n) 0,
+   items.filterMap fun it => match it with | .card l => if l.cls = .obj then some l.key.1 else none | _ => none)
+
+def cycles (splice : List (PLine String) → List (PLine String)) : Nat → List (PLine String) → List Json
+  | 0, _ => []
+  | n + 1, f =>
+    let items := parse (splice f)
+    let out := write P items
+    let st := readStats items
+    Json.mkObj [("atoms", ofNat st.1), ("objs", ofStrs st.2), ("heads", ofNat (logicalHeads false out).length),
+                ("lines", ofNat out.length)] :: cycles splice n out
 
 def handle (j : Json) : Except String Json := do
   let op ← strField j "op"
-  err s!"C07: unknown op {op}"
+  match op with
+  | "cycle" =>
+    let lines ← field j "lines" >>= strs
+    let n ← natField j "n"
+    let fsJ ← field j "fs"
+    let names ← match fsJ with
+      | .obj kvs => pure (kvs.toList.map (·.1))
+      | _ => err "fs: expected object"
+    let files ← names.mapM fun nm => do
+      let ls ← field fsJ nm >>= strs
+      pure (nm, lexFile ls)
+    let fs : FS String := fun nm => (files.find? (·.1 = nm)).map (·.2)
+    let f := lexFile lines
+    let spl := spliceNew fs f
+    let dangling := ((spl.foldl (fun s l => (step s l).2) ({} : St)).mode != .top)
+    let dup := !(decide (includeNames f).Nodup)
+    let out := cycle P spl
+    return Json.mkObj [
+      ("out", Json.arr (out.map outLine).toArray),
+      ("out2_same", Json.bool (cycle P (spliceNew fs out) == out)),
+      ("keys_in", keysJson (keySeq kwString f)),
+      ("spec", keysJson (coalesce kwString (keySeq kwString f))),
+      ("model_keys", keysJson (coalesce kwString (keySeq kwString out))),
+      ("cycles", Json.arr (cycles (spliceNew fs) n f).toArray),
+      ("cycles_old", Json.arr (cycles (spliceOld fs) n f).toArray),
+      ("dangling", Json.bool dangling), ("dup", Json.bool dup)]
+  | "coalesce" =>
+    -- the specification on key sequences produced by the harness's own lexer
+    let a ← (← arrField j "a").mapM keyOfJson
+    let b ← (← arrField j "b").mapM keyOfJson
+    return Json.mkObj [("a", keysJson (coalesce kwString a)), ("b", keysJson (coalesce kwString b))]
+  | "fmt" =>
+    -- fixed-precision printing: digits of x, and digits of the value read back
+    let x := mkRat (← intField j "num") (← natField j "den")
+    let nd ← natField j "nd"
+    let k := fmtFixed nd x
+    return Json.mkObj [("digits", ofInt k), ("again", ofInt (fmtFixed nd (readFixed nd k)))]
+  | _ => err s!"C07: unknown op {op}"
 
 end Shelx.Drv.C07
